@@ -524,6 +524,7 @@ impl Driver {
         let h = op["h"].as_u64().unwrap_or(0) as usize;
         match name {
             "conn_poll" => self.conn_poll(),
+            "conn_poll_inject" => self.conn_poll_inject(op),
             "peer" => {
                 let bytes: Vec<u8> = op["bytes"].as_array().map(|a| a.iter().map(|x| x.as_u64().unwrap_or(0) as u8).collect()).unwrap_or_default();
                 self.pipe.feed(&bytes);
@@ -1171,6 +1172,95 @@ impl Driver {
                 conn.take();
             }
         }
+    }
+
+    /// C20: one poll of the connection during which the handle operations `ops` are executed from inside the transport's
+    /// `poll_write` / `poll_flush` callback (`at`), at its `nth` call: exactly where the connection task has released the
+    /// stream-state lock (before `poll_ready`'s flush, between `buffer_pending` and `reclaim_written_frame`).  The connection
+    /// object is moved out of the driver for the duration of the poll, so the injected operations see every other handle.
+    pub fn conn_poll_inject(&mut self, op: &Value) -> Value {
+        use std::cell::{Cell, RefCell};
+        use std::rc::Rc;
+        if self.conn_done.is_some() {
+            return json!({"done": self.conn_done.clone()});
+        }
+        let at = op["at"].as_str().unwrap_or("write").to_string();
+        let nth = op["nth"].as_u64().unwrap_or(1);
+        let ops: Vec<Value> = op["ops"].as_array().cloned().unwrap_or_default();
+        let results: Rc<RefCell<Vec<Value>>> = Rc::new(RefCell::new(Vec::new()));
+        let fired = Rc::new(Cell::new(0u64));
+        let me: *mut Driver = self;
+        {
+            let (results, fired) = (results.clone(), fired.clone());
+            let mut count = 0u64;
+            let hook = Box::new(move |which: &'static str| {
+                if which != at {
+                    return;
+                }
+                count += 1;
+                if count != nth {
+                    return;
+                }
+                fired.set(count);
+                for o in &ops {
+                    let name = o["op"].as_str().unwrap_or("");
+                    if name.starts_with("conn_poll") || name == "poll_accept" || name == "drop_conn" {
+                        continue;
+                    }
+                    // SAFETY: the connection has been moved out of `*me` and `conn_poll_inject` does not touch `*me` while
+                    // the poll (and therefore this callback) runs; the transport cell is not borrowed during the callback.
+                    let d: &mut Driver = unsafe { &mut *me };
+                    let r = match std::panic::catch_unwind(std::panic::AssertUnwindSafe(|| d.exec_inner(o))) {
+                        Ok(v) => v,
+                        Err(_) => json!({"panic": "injected operation panicked"}),
+                    };
+                    d.note_result(o, &r);
+                    results.borrow_mut().push(json!({"op": o, "res": r}));
+                }
+            });
+            self.pipe.0.borrow_mut().hook = crate::pipe::Hook(Some(hook));
+        }
+        let t = self.conn_task.clone();
+        t.clear();
+        let w = t.waker();
+        let mut cx = Context::from_waker(&w);
+        enum Taken {
+            C(client::Connection<Pipe, Bytes>),
+            S(server::Connection<Pipe, Bytes>),
+            None,
+        }
+        let mut taken = match &mut self.ep {
+            Endpoint::Client { conn, .. } => conn.take().map(Taken::C).unwrap_or(Taken::None),
+            Endpoint::Server { conn } => conn.take().map(Taken::S).unwrap_or(Taken::None),
+        };
+        let r = match &mut taken {
+            Taken::C(c) => Some(Pin::new(c).poll(&mut cx)),
+            Taken::S(c) => Some(c.poll_closed(&mut cx)),
+            Taken::None => None,
+        };
+        self.pipe.0.borrow_mut().hook = crate::pipe::Hook(None);
+        match (&mut self.ep, taken) {
+            (Endpoint::Client { conn, .. }, Taken::C(c)) => *conn = Some(c),
+            (Endpoint::Server { conn }, Taken::S(c)) => *conn = Some(c),
+            _ => {}
+        }
+        let poll = match r {
+            None => json!("no-handle"),
+            Some(Poll::Pending) => json!("Pending"),
+            Some(Poll::Ready(Ok(()))) => {
+                self.conn_done = Some("Ok".into());
+                self.drop_conn_object();
+                json!("Ready(Ok)")
+            }
+            Some(Poll::Ready(Err(e))) => {
+                let s = err_str(&e);
+                self.conn_done = Some(s.clone());
+                self.drop_conn_object();
+                json!(s)
+            }
+        };
+        let injected = results.borrow().clone();
+        json!({"poll": poll, "fired": fired.get(), "injected": injected})
     }
 
     pub fn conn_woken(&self) -> bool {
